@@ -408,7 +408,7 @@ theorem completeBlock2_ok_code (cfg : Cfg) (t : Req) (e : Resp) (rs : List Resp)
     by_cases hm : b.more = true
     · by_cases hn : b.num ≠ 0
       · simp [hm, hn] at h
-      · by_cases hv : b.validFor e.payload.length = true
+      · by_cases hv : b.okFor e.payload.length = true
         · simp only [hm, Bool.not_true, Bool.false_eq_true, ↓reduceIte, hn, hv] at h
           unfold enterB2 at h
           split at h
@@ -470,7 +470,7 @@ theorem step_b2_progress (cfg : Cfg) (t : Req) (a : Asm) (cur : Req) (r : Resp) 
     by_cases hc : r.code ≠ a.code
     · left; exact ⟨_, by rw [if_pos hc]⟩
     rw [if_neg hc]
-    by_cases hv : b2.validFor r.payload.length = true
+    by_cases hv : b2.okFor r.payload.length = true
     · by_cases hs : b2.start ≠ a.payload.length
       · left; exact ⟨.error .notImplemented, by simp [hv, hs]⟩
       · by_cases he : r.etag ≠ a.etag
